@@ -23,6 +23,9 @@ Conc(k, i0, last) == CASE k = "a" -> "a#" \o ToString(i0)
                        [] k = "U" -> "U#" \o ToString(i0)
                        [] k = "L" -> "L#" \o ToString(i0)
                        [] k = "C" -> IF last THEN "C:f#" \o ToString(i0) ELSE "C:"
+                       [] k = "T" -> "..."
+                       [] k = "Q" -> "...."
+                       [] k = "S" -> ".. "
                        [] OTHER   -> k
 ConcName(n, i0) == LET cs == [j \in 1..Len(n.c) |-> Conc(n.c[j], i0, j = Len(n.c))] IN
                    IF HasRoot(n.c) THEN <<"E">> \o StandInRoot \o Tail(cs) ELSE cs
